@@ -276,6 +276,23 @@ func (i *IRCServer) BannedAddresses() map[string]string {
 func (i *IRCServer) Banned(remoteAddr string) string {""")],
     [(IRC + ":IRCServer.BannedAddresses", "IRCServer.Config", "R")])
 
+M["g01-fromstring-starts-from-defaults"] = ("config.FromString starts from a by-value copy of DefaultConfig (every configured instance then shares DefaultConfig.Banned)", [
+    ("internal/config/config.go", """	var cfg Network
+	_, err := toml.Decode(input, &cfg)""", """	cfg := DefaultConfig
+	_, err := toml.Decode(input, &cfg)""")],
+    [("internal/config/config.go:FromString", "config.DefaultConfig", "global-alias")])
+
+M["g02-new-package-level-template-struct"] = ("a new package-level template Session (with maps) is copied into every new session", [
+    (IRC, """func (i *IRCServer) createSessionLocked(id robust.Id, auth string, timestamp time.Time) error {""", """var sessionTemplate = Session{Channels: make(map[lcChan]bool), invitedTo: make(map[lcChan]bool), svid: "0"}
+
+func newSessionFromTemplate() *Session {
+	s := sessionTemplate
+	return &s
+}
+
+func (i *IRCServer) createSessionLocked(id robust.Id, auth string, timestamp time.Time) error {""")],
+    [(IRC + ":newSessionFromTemplate", "ircserver.sessionTemplate", "global-alias")])
+
 # ---- negative controls: behaviour-preserving refactorings must not be flagged
 M["n01-explicit-unlock"] = ("NumSessions with explicit RUnlock instead of defer", [
     (IRC, """	i.sessionsMu.RLock()
